@@ -124,3 +124,17 @@ add(
     "Relies on CPython reference counting + gc.collect(); identity is demanded only for constructions that do not evaluate; domains, ops and parametrised types are checked for identity, not reclamation.",
     "DESIGN.md section 3 C07",
 )
+add(
+    "C02",
+    "property-based testing with a run-time rewrite recorder: every rule firing observed while generated programs run under the exact interpretations is checked against the reference evaluator (reflected left-hand side vs replacement), with rule-function coverage reported",
+    "Bounded exploration: a recorder wrapped around the dispatch attribute of the eight dispatched interpretations logs each (rule, class, arguments, result); the reflected term cls(*args) and the replacement are converted to the AST language and compared on the whole integer input space x real points (closed forms for Gaussian integrals), together with inputs(replacement) <= inputs(original). The evidence lists fired and never-fired rule functions.",
+    "Trusts vf/lang.py and the term->AST conversion (cross-checked on every program); a firing's result includes downstream interpretation of the rewritten term; constructs without a reference meaning here are undecided (counted).",
+    "DESIGN.md section 3 C02",
+)
+add(
+    "C20",
+    "property-based testing with a mutation monitor: generated programs and follow-up operations run on leaf arrays produced by a hashing factory (read-only in half of the cases); held funsors are snapshotted and re-checked",
+    "Bounded exploration: the mixed program driver plus 2-5 follow-up operations (align, reductions, substitution, arithmetic, to_data, sample, compile, adjoint, optimizer, indexing, rename, slice, pickle) per case; afterwards every leaf array must be bit-identical (sha1, shape, dtype, strides), every held funsor must have unchanged inputs/output/array contents, and no read-only write error may surface from funsor.",
+    "Trusts numpy's writeable flag and sha1 of array bytes; covers the operations the driver performs (numpy backend).",
+    "DESIGN.md section 3 C20",
+)
